@@ -105,4 +105,30 @@ template <typename Rep, intmax_t PN, intmax_t PD, typename R2, uint64_t N2, uint
 void chrono_mixed(const char *k1, const char *k2, const char *lo, const char *hi, const char *plo, const char *phi, const MOpts &o) {
     ChronoInst<Rep, PN, PD, R2, N2, D2>(k1, k2, lo, hi, plo, phi, o).run();
 }
+// a duration type the quantity type accepts implicitly: the conversion must be the corresponding quantity's own conversion, value for value
+template <typename Rep, intmax_t PN, intmax_t PD, typename R2, uint64_t N2, uint64_t D2>
+long long chrono_accept() {
+    using D = std::chrono::duration<Rep, std::ratio<PN, PD>>;
+    using Q = Quantity<SU<N2, D2>, R2>;
+    const long double factor = ((long double)PN / (long double)PD) / ((long double)N2 / (long double)D2);
+    long long bad = 0;
+    const long double vals[] = {0, 1, -1, 3, 7, 100, 0.1L, 700000, 2147483647.0L, -2000000000.0L, 4000000000.0L};
+    for (long double lv : vals) {
+        if (lv < (long double)std::numeric_limits<Rep>::lowest() || lv > (long double)std::numeric_limits<Rep>::max()) continue;
+        if (std::is_integral<R2>::value && std::fabs(lv * factor) > (long double)std::numeric_limits<R2>::max() / 2) continue;
+        if (std::is_unsigned<R2>::value && lv < 0) continue;
+        Rep v = (Rep)lv;
+        D d{v};
+        AUV_INFLIGHT("implicit duration->quantity R=%s", rep_name<Rep>());
+        Q q = d;                        // implicit, from the duration
+        Q q2 = as_quantity(d);          // implicit, from the corresponding quantity
+        R2 a = q.in(SU<N2, D2>{}), b = q2.in(SU<N2, D2>{});
+        if (std::memcmp(&a, &b, sizeof(R2) > 10 ? 10 : sizeof(R2)) != 0) {
+            ++bad;
+            if (bad <= 3) std::printf("{\"k\":\"accmis\",\"Rep\":\"%s\",\"P\":\"%lld/%lld\",\"R2\":\"%s\",\"U\":\"%llu/%llu\",\"v\":%s,\"from_duration\":%s,\"from_quantity\":%s}\n", rep_name<Rep>(), (long long)PN, (long long)PD,
+                                  rep_name<R2>(), (unsigned long long)N2, (unsigned long long)D2, fwire((long double)v).c_str(), fwire((long double)a).c_str(), fwire((long double)b).c_str());
+        }
+    }
+    return bad;
+}
 }  // namespace auv
